@@ -2,6 +2,7 @@ package main
 
 import (
 	"fmt"
+	"os"
 	"go/token"
 	"sort"
 )
@@ -106,6 +107,9 @@ func runRule(p *Program, rule *Rule) (obs []Obligation) {
 	func() {
 		defer func() {
 			if e := recover(); e != nil {
+				if os.Getenv("JMESCHECK_PANIC") != "" {
+					panic(e)
+				}
 				rep.Unknown(token.NoPos, "rule-panic", fmt.Sprintf("rule panicked: %v", e))
 			}
 		}()
